@@ -266,7 +266,7 @@ CHECKS["C03"] = dict(
           "contract within reach (the specification of MacroExpander.expand is Prosser's algorithm), so the real expander is "
           "compared token for token with `gcc -E -P` on seeded random macro tables (object-like, function-like with up to 2 "
           "parameters + variadic, # and ##, nested / parenthesised / empty arguments, direct, mutual and argument-borne "
-          "recursion) and invocations - 150 pairs quick, 5000 thorough - and -DNAME / -DNAME=value / -D'NAME(args)=value' are "
+          "recursion) and invocations - 600 pairs quick, 6000 thorough - and -DNAME / -DNAME=value / -D'NAME(args)=value' are "
           "compared with the corresponding #define. Discharged: the macro-table contracts (shared with C01) and syntactic "
           "obligations tying the -D path to the #define path and the depth backstop. Three defects were fixed, four "
           "deviations are recorded findings."),
